@@ -30,7 +30,7 @@ def snapshot_plain(args, kwargs):
     return out
 
 
-def check_plain(api, plain, raised=False):
+def check_plain(api, plain, raised=False, prop=None):
     """a list-valued option (requested ranks, step sizes, index sets ...) is the caller's: the call must not rewrite it.  Reported
     under the property being checked: what the caller 'requested' in a later call with the same list is otherwise not what they wrote."""
     c = core.ctx()
@@ -40,7 +40,7 @@ def check_plain(api, plain, raised=False):
         except Exception:
             same = False
         c.check(api, 'list_argument_unchanged', same, ['arg=%s' % key] + (['raised'] if raised and not same else []),
-                {'before': before, 'after': v} if not same else None)
+                {'before': before, 'after': v} if not same else None, prop=prop)
 
 
 def _plain_equal(a, b):
